@@ -126,6 +126,12 @@ func (repo *Repository) GitCommand(callerArgs ...string) *exec.Cmd {
 		// Disable replace references when running our commands:
 		"--no-replace-objects",
 
+		// Some versions of git let `core.useReplaceRefs=true` in the
+		// repository's configuration override `--no-replace-objects`,
+		// so also say it in a way that has precedence over config
+		// files:
+		"-c", "core.useReplaceRefs=false",
+
 		// Disable the warning that grafts are deprecated, since we
 		// want to set the grafts file to `/dev/null` below (to
 		// disable grafts even where they are supported):
